@@ -64,9 +64,15 @@ func genDirection(r *sim.Rand, keys []string, handover []string) []sim.GEdge {
 	}
 	mode := map[string]bool{} // true = conditional outputs
 	for _, k := range keys {
-		mode[k] = r.Chance(1, 2)
+		// a "<flow>.<key>" node: the engine validates its conditions against the LOCAL namesake's definition
+		// (GetProcessorDefinitionByKey looks in the current flow first; the namesake is a MockProcessor), so its
+		// connections carry output_1 / output_2
+		mode[k] = r.Chance(1, 2) || strings.Contains(k, ".")
 	}
 	condFor := func(k string) string {
+		if strings.Contains(k, ".") {
+			return sim.Pick(r, []string{"output_1", "output_2"})
+		}
 		if mode[k] {
 			return sim.Pick(r, []string{"a", "b"})
 		}
@@ -125,7 +131,29 @@ func genGraph(r *sim.Rand) graphCase {
 		fl := sim.GFlow{Name: fmt.Sprintf("g%d", f), URL: sim.Pick(r, []string{"a.com/*", "a.com/x", "a.com/{p}"})}
 		nreq := r.Range(1, 5)
 		var reqKeys, respKeys, hand []string
+		// another flow's processor used by its "<flow>.<key>" name while this flow defines a processor of its
+		// own under the same short key (off every path): the node must hold the OTHER flow's instance
+		crossAt, crossKey := -1, ""
+		if f > 0 && r.Chance(1, 3) {
+			var cands []string
+			for _, n := range gc.Flows[0].Nodes {
+				if n.Kind == "VerifProbe" && !gc.Early[n.Key] && !strings.Contains(n.Key, "m") {
+					cands = append(cands, n.Key)
+				}
+			}
+			if len(cands) > 0 {
+				crossAt, crossKey = r.Intn(nreq+1), sim.Pick(r, cands)
+			}
+		}
+		addCross := func() {
+			reqKeys = append(reqKeys, gc.Flows[0].Name+"."+crossKey)
+			fl.Nodes = append(fl.Nodes, sim.GNode{Key: gc.Flows[0].Name + "." + crossKey, Kind: "ref"},
+				sim.GNode{Key: crossKey, Kind: "MockProcessor"})
+		}
 		for i := 0; i < nreq; i++ {
+			if i == crossAt {
+				addCross()
+			}
 			k := fmt.Sprintf("f%dn%d", f, i)
 			reqKeys = append(reqKeys, k)
 			fl.Nodes = append(fl.Nodes, sim.GNode{Key: k, Kind: "VerifProbe"})
@@ -133,6 +161,9 @@ func genGraph(r *sim.Rand) graphCase {
 				gc.Early[k] = true
 				hand = append(hand, k)
 			}
+		}
+		if crossAt == nreq {
+			addCross()
 		}
 		nresp := r.Range(0, 4)
 		for i := 0; i < nresp; i++ {
@@ -162,11 +193,21 @@ func genSteer(r *sim.Rand, gc graphCase) steer {
 	s := steer{Out: map[string]string{}}
 	for _, fl := range gc.Flows {
 		for _, n := range fl.Nodes {
+			if n.Kind != "VerifProbe" {
+				continue
+			}
 			// does the node use conditions?
 			conds := map[string]bool{}
 			for _, e := range append(append([]sim.GEdge{}, fl.Req...), fl.Resp...) {
 				if e.From == n.Key {
 					conds[e.Cond] = true
+				}
+			}
+			for _, other := range gc.Flows {
+				for _, e := range other.Req {
+					if strings.Contains(e.From, ".") && shortKey(e.From) == n.Key {
+						conds[e.Cond] = true
+					}
 				}
 			}
 			var opts []string
@@ -191,6 +232,14 @@ func genSteer(r *sim.Rand, gc graphCase) steer {
 			}
 		}
 	}
+	// a node holding another flow's processor is steered by that processor's header
+	for _, fl := range gc.Flows {
+		for _, n := range fl.Nodes {
+			if n.Kind == "ref" {
+				s.Out[n.Key] = s.Out[shortKey(n.Key)]
+			}
+		}
+	}
 	if len(gc.Early) > 0 && r.Chance(1, 2) {
 		s.Early = sim.Pick(r, sim.SortedKeys(gc.Early))
 	} else if r.Chance(1, 4) {
@@ -199,7 +248,7 @@ func genSteer(r *sim.Rand, gc graphCase) steer {
 		var cs []cand
 		for _, fl := range gc.Flows {
 			for _, e := range fl.Req {
-				if e.To != "" && !gc.Early[e.From] {
+				if e.To != "" && !gc.Early[e.From] && !strings.Contains(e.From, ".") {
 					cs = append(cs, cand{e.From, e.Cond})
 				}
 			}
@@ -239,9 +288,15 @@ func judgeUnwired(s steer, trace []ev, rp replay, v *sim.Verdict) {
 	}
 }
 
+// shortKey: "<flow>.<key>" -> "<key>"
+func shortKey(k string) string { return k[strings.LastIndex(k, ".")+1:] }
+
 func headersFor(s steer) map[string]string {
 	h := map[string]string{}
 	for k, c := range s.Out {
+		if strings.Contains(k, ".") {
+			continue
+		}
 		v := "c=" + c
 		if k == s.Early {
 			v += "|a=early:418:by-" + k
@@ -650,7 +705,7 @@ func judgeActions(reqEv []ev, res sim.ReqResult, rp replay, v *sim.Verdict) {
 	var want []string
 	for _, e := range reqEv {
 		if !isSystem(e.Flow) {
-			want = append(want, e.Key)
+			want = append(want, shortKey(e.Key))
 		}
 	}
 	var got []string
